@@ -255,7 +255,7 @@ Record rendered := mkrend {
 Definition count_some {T} (l : list (list (option T))) : Z :=
   fold_left (fun a row => fold_left (fun b o => match o with Some _ => b + 1 | None => b end) row a) l 0.
 
-Definition render (fixed : bool) (g : cfg) (W Hh xpos ypos : Z) (text : str) (cursor : Z)
+Definition render_gen (fixed : bool) (g : cfg) (W Hh xpos ypos : Z) (text : str) (cursor : Z)
     (st : sstate) : option rendered :=
   if (W <=? 0) || (Hh <=? 0) then None else
   let src := split_on NL text in
@@ -279,7 +279,7 @@ Definition render (fixed : bool) (g : cfg) (W Hh xpos ypos : Z) (text : str) (cu
       let tbh s := height_for_line sw (g_haspfx g) pfx (line_of row) row bw (Some s) in
       let st' :=
         if g_wrap g then
-          scroll_wrap fixed false Hf tbh bw Hh (g_top g) (g_bottom g) row ucol nlines st
+          scroll_wrap_gen fixed false Hf tbh bw Hh (g_top g) (g_bottom g) row ucol nlines st
         else
           scroll_nowrap false sw (line_of row)
             (if g_haspfx g then strw sw (pfx row 0) else 0)
@@ -310,12 +310,17 @@ Definition rendered_cursor_ok (W Hh xpos ypos : Z) (r : rendered) : bool :=
       end
   | None => false
   end.
-Definition render_cursor_ok (fixed : bool) (g : cfg) (W Hh xpos ypos : Z) (text : str) (cursor : Z)
+Definition render_cursor_ok_gen (fixed : bool) (g : cfg) (W Hh xpos ypos : Z) (text : str) (cursor : Z)
     (st : sstate) : bool :=
-  match render fixed g W Hh xpos ypos text cursor st with
+  match render_gen fixed g W Hh xpos ypos text cursor st with
   | Some r => rendered_cursor_ok W Hh xpos ypos r
   | None => false
   end.
+
+(* the code as it is in /repo; the pinned snapshot (before commit f4b07a8) *)
+Definition render := render_gen true.
+Definition render_cursor_ok := render_cursor_ok_gen true.
+Definition render_cursor_ok_pinned := render_cursor_ok_gen false.
 
 (* sub-domains: every character that can be drawn has source and display width 1 *)
 Definition all_narrow (g : cfg) (text : str) : bool :=
@@ -370,21 +375,19 @@ Fixpoint run_states (fixed : bool) (g : cfg) (sts : list (Z * Z * Z * Z * str * 
   match sts with
   | [] => []
   | (W, Hh, xp, yp, t, c) :: r =>
-      match render fixed g W Hh xp yp t c st with
+      match render_gen fixed g W Hh xp yp t c st with
       | Some rd => enc_rendered rd :: run_states fixed g r (r_st rd)
       | None => L [A 1] :: run_states fixed g r st
       end
   end.
 
-(* case = (cfg chartab states fixed): [fixed] = 0 runs the code as it is in
-   /repo, 1 the variant repaired by fixes/C11-wrap-cursor-row.patch (the harness
-   constant FIXED says which one /repo is expected to be). *)
+(* case = (cfg chartab states); runs the code as it is in /repo *)
 Definition run_C11 (s : sx) : sx :=
   match s with
-  | L [c; tab; L sts; f] =>
-      match dec_cfg c tab, map_opt dec_state sts, as_bool f with
-      | Some g, Some sts', Some fixed => L (run_states fixed g sts' (mkss 0 0 0))
-      | _, _, _ => bad_case
+  | L [c; tab; L sts] =>
+      match dec_cfg c tab, map_opt dec_state sts with
+      | Some g, Some sts' => L (run_states true g sts' (mkss 0 0 0))
+      | _, _ => bad_case
       end
   | _ => bad_case
   end.
